@@ -451,6 +451,14 @@ HAND = [
 ]
 
 
+HAND_SCALED = [
+    (["4 eggs\nfry(1 eggs)\nboil(3 eggs)\nbake(remaining eggs)"], [Fraction(1, 10), Fraction(1, 3), Fraction(2, 3)]),
+    (["5 eggs\nfry(1 eggs)\nboil(4 eggs)\nbake(remaining eggs)"], [Fraction(1, 3), Fraction(1, 7), 3]),
+    (["45359237g spam\nfry(1lb spam)\nfry(2lb spam)\nfry(99997lb spam)\nbake(remaining spam)"], [Fraction(5, 3), 3]),
+    (["55ml spam\nboil(6ml spam)\nboil(15ml spam)\nmix(31ml spam)\nfry(3ml spam)\nbake(rest of the spam)\n"], [Fraction(7, 3)]),
+]
+
+
 def mk_suite() -> Suite:
     return Suite(name="lint", imports=IMPORTS, in_ty="(option num * list (list node))", out_ty="(lres (list lint))",
                  check="check_lint", show="lint_scaled", shard=100)
@@ -473,6 +481,10 @@ def suites(tier: str, seed: int) -> List[Suite]:
         jobs.append(build_program(rng))
     for _ in range(nrandom):
         jobs.append((spell(gen_program(rng), rng), "random-program"))
+    for texts, ks in HAND_SCALED:
+        st, recipes = C08._compile_job(texts)
+        for k in ks:
+            su.cases.append(make_case(texts, recipes, k, "hand"))
     results = C08.compile_many([t for t, _ in jobs])
     for (texts, tag), (st, recipes) in zip(jobs, results):
         if st != "ok":
@@ -590,4 +602,17 @@ def known_match(finding: Any, case: Case) -> bool:
     return all(kind in ("sub_recipe_not_used_up", "sub_recipe_used_too_much") and name in names for kind, name in extra)
 
 
-THEOREMS.update({"C20_smoke": "example"})
+THEOREMS.update({
+    "C20_smoke": "example",
+    "C20_no_crash": "full",
+    "C20_no_crash_sane": "full",
+    "C20_no_crash_ex": "example",
+    "C20_unused_iff": "full",
+    "C20_unused_set": "full",
+    "C20_verdict_spec_partial": "partial",
+    "C20_verdict_spec_ex": "example",
+    "C20_exact_full_use_remainder_refuted": "refuted",
+    "C20_scale_invariant_exact": "full",
+    "C20_scale_invariant_exact_ex": "example",
+    "C20_scale_invariant_float_conversion_refuted": "refuted",
+})
